@@ -2,6 +2,7 @@ package mon
 
 import (
 	"fmt"
+	"math/rand/v2"
 	"sort"
 	"strings"
 	"sync"
@@ -80,6 +81,24 @@ func runAccept(r *Run, v2 bool) int {
 			} else {
 				rej[level].Add(1)
 			}
+		}
+		// valid vectors interleaved through the whole run (a defect that strikes every Nth call, or after N calls,
+		// then meets a vector that must be accepted)
+		if h%8 == 0 && m.Src != "valid" {
+			var vs string
+			lv := int(h>>9) % 3
+			rng := rand.New(rand.NewPCG(h, 11))
+			if v2 {
+				sv := seed2(rng, lv)
+				vs = sv.String()
+			} else {
+				sv := seed3(rng, lv)
+				vs = join3("CVSS:"+spec.V3Versions[sv.Ver], toks3(&sv, lv, rng, true))
+			}
+			for level := lv; level < 3; level++ {
+				checkAccept(w, prop, v2, level, vs, int((h>>uint(3+level))%3))
+			}
+			w.Count("interleaved_valid_vectors")
 		}
 		if h%200003 == 0 {
 			a, d := refParse(v2, s, 2)
